@@ -26,7 +26,9 @@ REQUIRED_THEOREMS = ["faces_in_bijection", "ref_vertex_face_by_face", "ref_verte
                      # round 5: find loop, renumbering loop, order_verts of _build_mesh_with_cuts
                      "find_loop_source", "map_loop_source", "order_verts_source", "build_stages_source",
                      # round 6: chi = 1 on the source's own dual tree
-                     "dual_tree_structure_source", "euler_characteristic_of_source_dual_tree_partial", "build_ref_source"]
+                     "dual_tree_structure_source", "euler_characteristic_of_source_dual_tree_partial", "build_ref_source",
+                     # round 7: __init__ (self.singularities / self.singu_set) and what the pruning reads
+                     "init_singularities_source", "prune_reads_singularities_source"]
 TRUSTED = [
     "Lean 4.33.0 kernel; axioms ⊆ {propext, Classical.choice, Quot.sound}",
     "hand-written model Mouette/Model/Cutting.lean (_build_cut_edges_tree, _prune_edge_tree, _build_mesh_with_cuts over the C20 "
@@ -42,7 +44,7 @@ TRUSTED = [
 ASSUMPTIONS = ["agreement model/implementation and the disk property are established on the cases explored in this run only"]
 RULE = ("connected oriented triangulated surfaces (sphere, tetrahedron, tori, genus 2, grids, Delaunay disks, annuli; holes punched → "
         "0-3+ border loops; regular variants with many equal edge lengths) × singularity sets (empty, one, few, many, border-only, "
-        "mixed) × features (none, real FeatureEdgeDetector, detector with an imposed interior feature set); plus regular grids with one "
+        "mixed; passed as list / tuple / set / ndarray / numpy scalars / vertex attribute / ONE-SHOT iterables: generator, iterator, map object) × features (none, real FeatureEdgeDetector, detector with an imposed interior feature set); plus regular grids with one "
         "removed triangle and every singular pair next to the hole (thorough: all 2512 + 1256 two-cutter histories, quick: 200 sampled + all 1256 histories); non-trivial = in-domain "
         "case whose run succeeded and cut at least one interior edge")
 
@@ -92,12 +94,13 @@ def _make_features(case, mesh):
     return det
 
 
-REPS = ("list", "tuple", "set", "ndarray", "ndarray32", "npints", "attribute")
+REPS = ("list", "tuple", "set", "ndarray", "ndarray32", "npints", "attribute", "generator", "iter", "map")
 HISTS = ("none", "rerun", "second", "graph-first", "out-first", "detector-twice", "interleave")
 
 
 def _make_sing(rep, sing, mesh):
-    """the singularity set in the representation `rep` (all are accepted by the constructor: list, any iterable, ndarray,
+    """the singularity set in the representation `rep` (all are accepted by the constructor: list, any iterable - also a one-shot one:
+    generator expression, iterator, map object -, ndarray,
     or a vertex attribute whose keys are the singular vertices as FrameField integration passes it)"""
     import numpy as np
     if rep == "tuple": return tuple(sing)
@@ -105,6 +108,10 @@ def _make_sing(rep, sing, mesh):
     if rep == "ndarray": return np.array(sing, dtype=np.int64)
     if rep == "ndarray32": return np.array(sing, dtype=np.int32)
     if rep == "npints": return [np.int64(x) for x in sing]
+    # one-shot iterables (round 7): the constructor accepts any iterable; these can be walked only ONCE
+    if rep == "generator": return (x for x in list(sing))
+    if rep == "iter": return iter(list(sing))
+    if rep == "map": return map(int, list(sing))
     if rep == "attribute":
         a = mesh.vertices.create_attribute("singuls", int)
         for i, x in enumerate(sing): a[x] = 1 if i % 2 == 0 else -1
@@ -504,6 +511,11 @@ def cases(rng, tier):
             c["feat"] = {"mode": "detector"}
         yield c
         yield dict(base, rep=rng.choice(REPS[1:]), hist=rng.choice(["rerun", "graph-first", "out-first"]))
+        # one-shot iterables with a non-empty singularity set (the result may not depend on the container type)
+        nonempty = [x for x in sets if x[1]]
+        if nonempty:
+            sk2, sing2 = rng.choice(nonempty)
+            yield dict(base, sing=sing2, sk=sk2, rep=rng.choice(["generator", "iter", "map"]))
     # structured family: singular pairs next to a hole of a regular grid (crossing shortest paths of equal length)
     for c in CG.pairs_at_hole(rng, 200 if tier == "quick" else 10 ** 6):
         yield c
@@ -553,7 +565,7 @@ def translate():
 _CUT = "mouette/processing/cutting.py::SingularityCutter."
 _OOS_UF = "modelled"   # mouette/utils/unionfind.py is translated and bridged under C20 (Props/C20Source); C16 uses the hand model UF
 SOURCE_MAP = {
-    _CUT + "__init__": "oracle-only",
+    _CUT + "__init__": "translated: the lines that fill self.singularities / self.singu_set from the argument (init_singularities_source, prune_reads_singularities_source); the other attribute initialisations are oracle-only",
     _CUT + "has_features": "oracle-only",
     _CUT + "output_mesh": "oracle-only",
     _CUT + "cut_graph": "oracle-only",
